@@ -234,6 +234,17 @@ func Text(class string, rng *rand.Rand) string {
 	case "longutf8": // needs several RFC 2047 encoded words
 		return "Übersicht der Quartalszahlen für das Geschäftsjahr – Zusammenfassung und Ausblick auf die nächsten Monate.pdf"
 	}
+	if strings.HasPrefix(class, "dwords") { // dwordsN: N-character words separated by TWO blanks, after a short lead
+		n := 5
+		fmt.Sscanf(class, "dwords%d", &n)
+		var sb strings.Builder
+		sb.WriteString("lead")
+		for sb.Len() < 220 {
+			sb.WriteString("  ")
+			sb.WriteString(repeat(string(rune('a'+rng.Intn(26))), n))
+		}
+		return sb.String()
+	}
 	if strings.HasPrefix(class, "words") { // wordsN: N-character words up to about 200 characters
 		n := 5
 		fmt.Sscanf(class, "words%d", &n)
@@ -1171,8 +1182,14 @@ func (rn *Runner) Run() {
 				oerr = reader.Error()
 			}
 			n = int64(out.Len())
-		case "File":
+		case "File", "FileOver":
 			path := filepath.Join(rn.TmpDir, fmt.Sprintf("out-%d-%d.eml", rn.T, k))
+			if op == "FileOver" { // the file exists already and is longer than the message
+				if werr := os.WriteFile(path, bytes.Repeat([]byte("an older and longer export\r\n"), 4000), 0o600); werr != nil {
+					rn.Infra = werr
+					return
+				}
+			}
 			oerr = built.Msg.WriteToFile(path)
 			if oerr == nil {
 				var b []byte
